@@ -1,5 +1,5 @@
 """C11: logging fidelity -- the log files are an exact transcript."""
-from simpex import sendlog, interact_fam, unicode_fam
+from simpex import sendlog, interact_fam, unicode_fam, run_fam
 from simpex.runner import CheckSpec
 from checks.c01_c03_engine import COMPONENTS
 
@@ -14,14 +14,15 @@ RULE = ('the C08 histories (send family interleaved with reads against an echoin
         'logfile_send == what was forwarded to the child; a sendcontrol() after the session logs exactly its control byte. Added later: log '
         'files switched to another object or to None in mid-history (each object holds the transcript of exactly the period it was '
         'attached), awaited reads with the kernel-truth clause, a failing sendall (the argument is logged although the send fails). '
-        'Non-trivial: >= 1 log write; distinct by trace digest')
+        'In a twentieth of the runs the log is handed to run(logfile=...) (C12 dialogues): every write is the next chunk read or the next '
+        'response sent, all of them are there, each followed by a flush. Non-trivial: >= 1 log write; distinct by trace digest')
 
 ASSUME = ['a quarter of the runs are interact() sessions (C15 harness) with log files attached (clauses C11.interact_*)']
 
 
 def nontrivial(scn, info):
     c = info.get('counters', {})
-    return c.get('sent_bytes', 0) > 0 or c.get('read_chunks', 0) > 0 or c.get('typed', 0) > 0 or c.get('child_wrote', 0) > 0 or scn.get('family') == 'unicode'
+    return c.get('sent_bytes', 0) > 0 or c.get('read_chunks', 0) > 0 or c.get('typed', 0) > 0 or c.get('child_wrote', 0) > 0 or scn.get('family') in ('unicode', 'run')
 
 
 def tag(scn, v):
@@ -37,6 +38,11 @@ def generate(rng):
             scn['async'] = True
             if scn.get('drain') == 'read':
                 scn['drain'] = 'expect_eof'
+        return scn
+    if rng.random() < 0.05:
+        # run(logfile=...): the transcript of a whole scripted dialogue
+        scn = run_fam.generate(rng)
+        scn['logfile'] = True
         return scn
     if rng.random() < 0.25:
         scn = interact_fam.generate(rng)
@@ -60,6 +66,9 @@ def run(scn):
                 v.detail['log'] = 'async' if scn.get('async') else 'sync'
                 out.append(v)
         return out, info
+    if scn.get('family') == 'run':
+        vs, info = run_fam.run(scn)
+        return [v for v in vs if v.clause.startswith('C11')], info
     if scn.get('family') == 'interact':
         return interact_fam.run(scn, 'C11')
     return sendlog.run(scn, 'C11')
